@@ -264,6 +264,64 @@ def castsign_rule(chk, db):
         chk.analysis_broken("CASTSIGN: only %d conversion functions with an integral value parameter (floor 3)" % n)
 
 
+def ovfchk_rule(chk, db):
+    """OVFCHK: in the parsing kernel every accumulation `v = v * base (+|-) digit` is reached only on paths on which the overflow
+    test for exactly (v, digit) was evaluated and was false. A test that is conjoined with another condition (short-circuit)
+    or skipped on some path leaves the multiplication unguarded."""
+    n = 0
+    for f in db.funcs:
+        if f.get("body") is None or not f["file"].startswith("_strings/to_integer"):
+            continue
+        accs = []
+        for x in astx.all_exprs(f, into_lambdas=False):
+            if x.get("k") == "bin" and x["op"] == "=" and astx.strip_casts(x["l"]).get("k") == "ref":
+                v = astx.strip_casts(x["l"])["n"]
+                if any(y.get("k") == "bin" and y["op"] == "*" and astx.strip_casts(y["l"]).get("k") == "ref" and astx.strip_casts(y["l"]).get("n") == v
+                       for y in astx.walk_expr(x["r"])):
+                    accs.append((x, v))
+        if not accs:
+            continue
+        construct = astx.sig(f)
+        n += 1
+        chk.instance("OVFCHK")
+        bad = None
+
+        def facts_false(c, taken):
+            """calls known to have returned false when c evaluated to `taken`"""
+            c = astx.strip_casts(c)
+            if c is None:
+                return []
+            if c.get("k") == "un" and c["op"] == "!":
+                return facts_false(c["e"], not taken)
+            if c.get("k") == "bin" and c["op"] == "||" and not taken:
+                return facts_false(c["l"], False) + facts_false(c["r"], False)
+            if c.get("k") == "call" and not taken:
+                return [c]
+            return []
+
+        for p in SP.paths(f["body"]):
+            known = []
+            for ev in p:
+                if ev[0] == "cond":
+                    known += facts_false(ev[1], ev[2])
+                for e in SP.event_exprs(ev):
+                    for acc, v in accs:
+                        if any(y is acc for y in astx.walk_expr(e)):
+                            ok = any(len(c["a"]) >= 1 and any(astx.strip_casts(a) is not None and astx.strip_casts(a).get("k") == "ref"
+                                                              and astx.strip_casts(a).get("n") == v for a in c["a"]) for c in known)
+                            if not ok and bad is None:
+                                bad = acc
+                if ev[0] == "backedge-cond":
+                    known = []
+        chk.obligation("OVFCHK", construct, bad is None)
+        if bad is not None:
+            chk.violation("OVFCHK", construct, "unguarded-accumulation", "%s: `%s` is reachable on a path on which no overflow test of the accumulator "
+                          "has been evaluated to false (a test conjoined with another condition does not count)" % (
+                              astx.loc(f, bad), astx.show(bad, 60)), {"where": astx.loc(f)})
+    if n < 1:
+        chk.analysis_broken("OVFCHK: no accumulating parse loop found in _strings/to_integer.hpp")
+
+
 def sign_rule(chk, db):
     """SIGN: a formatting kernel that can emit '-' emits it on every path on which the value may be negative (std::to_chars
     writes the sign for every base). Facts come from the tests on the path: `v < 0` false or an unsigned type excuse it."""
@@ -340,6 +398,7 @@ def run(chk, tier):
     neg_rule(chk, db)
     sign_rule(chk, db)
     castsign_rule(chk, db)
+    ovfchk_rule(chk, db)
     chk.assumptions += [
         "digits produced, values parsed, round trips and overflow detection at the type's limits are run-time values and are "
         "not decided by these clauses",
